@@ -66,6 +66,10 @@ def postQuitArmOf (l : List String) : Bool :=
 def postNonBlockingOf (l : List String) : Bool :=
   l.contains "select {" && l.contains "default:" && l.any (fun x => isCase x && hasSub " <- ev" x)
 
+/-- `Suspend` / `Resume` take `vx.suspendMu` first and release it by a deferred unlock. -/
+def suspendLockedOf (skeleton : List String) : Bool :=
+  skeleton.take 2 == ["vx.suspendMu.Lock", "defer:vx.suspendMu.Unlock()"]
+
 /-- Scheduling policies (who moves first when several labels are enabled). -/
 inductive Policy
   /-- the terminal answers at once and the library's goroutines run ahead of the caller: the caller's
